@@ -31,6 +31,7 @@ def run(chk):
         one(chk, repo, sp)
         abnormal(chk, repo, sp)
         hunt3(chk, repo, sp)
+        hunt4(chk, repo, sp)
     # the client session hears about a lost connection through the reader the protocol holds: connection_lost() feeds it EOF, which is what
     # wakes a parked receive() with CLOSED / 1006 - so nothing but connection_lost() itself (after that) and set_parser() may drop the reader
     CPM = "aiohttp/client_proto.py"
@@ -53,7 +54,7 @@ def run(chk):
 def one(chk, repo, sp):
     mod, cn, side = sp["mod"], sp["cls"], sp["side"]
     cls = repo.cls(mod, cn)
-    close = repo.func(mod, f"{cn}.close")
+    close = K.with_tail_delegate(cls, "close")  # close() may hand its handshake to a private coroutine of its own
     recv = repo.func(mod, f"{cn}.receive")
     g = cfg_of(close.node)
     tag = f"[{side}]"
@@ -67,7 +68,13 @@ def one(chk, repo, sp):
 
     # ---- once -----------------------------------------------------------------------------------------
     sends = []
+    inlined = {c.func.attr for c in ast.walk(cls.methods["close"].node) if isinstance(c, ast.Call) and isinstance(c.func, ast.Attribute) and norm.raw(c.func.value) == "self"} if close is not cls.methods["close"] else set()
     for name, m in cls.methods.items():
+        if name == "close":
+            m = close  # with its tail delegate inlined
+        elif name in inlined and any(isinstance(c, ast.Call) and norm.raw(c.func) == "self._writer.close" for c in ast.walk(m.node)) and any(
+                isinstance(c, ast.Call) and norm.raw(c.func) == "self._writer.close" for c in ast.walk(close.node)):
+            continue  # the private coroutine close() delegates to: seen as part of close()
         for c, _b in K.exprs(m, "self._writer.close(...)"):
             sends.append((name, c))
     if [n for n, _c in sends] != ["close"]:
@@ -155,6 +162,9 @@ def one(chk, repo, sp):
     # ---- transport ------------------------------------------------------------------------------------------------
     K.must_pass(chk, "C13.transport", close, latch, tclose, f"{tag} after the latch every explicit return/raise of close() closes the transport", model=EXPLICIT,
                 construct="self._set_closed()", missing=" / ".join(sp["tclose"]))
+    # ... and so does a cancellation at any of its suspension points (the session is latched closed: nobody else will close the transport)
+    K.must_pass(chk, "C13.transport", close, latch, tclose, f"{tag} after the latch a close() cancelled at any await closes the transport", model=CANCEL,
+                construct="self._set_closed()", missing="except asyncio.CancelledError: <1006, close the transport>; raise")
     # ---- timeout ----------------------------------------------------------------------------------------------------
     creads = [a for a in prog.awaits_in(close.node) if norm.raw(a.value) in (f"{sp['reader']}.read()", "self._reader.read()")]
     if not creads:
@@ -300,12 +310,57 @@ def one(chk, repo, sp):
                 chk.violation("C13.receive", h, f"except {'/'.join(types)}", "close()/_set_closed() or re-raise", f"{tag} receive() swallows an error without ending the session: the next receive() blocks on a dead connection")
 
 
+def hunt4(chk, repo, sp):
+    """Rules written after the fourth defect hunt (F260-F263)."""
+    mod, cn, side = sp["mod"], sp["cls"], sp["side"]
+    cls = repo.cls(mod, cn)
+    close, recv = K.with_tail_delegate(cls, "close"), cls.methods["receive"]
+    tag = f"[{side}]"
+    # ---- C13.wake (takeover): a receive() that finds the session closing does not run a close() of its own over one that is under way --------------
+    own = [c for c in prog.calls_in(recv.node) if norm.raw(c.func) == "self.close" and PC.has_lit(PC.pc(K.stmt_of(c), raw=True), "self._closing", True) is not None]
+    for c in own:
+        lits = PC.units(PC.pc(K.stmt_of(c), raw=True))
+        if any(l.pos and l.text == "self._close_wait is None" for l in lits) or any(not l.pos and l.text == "self._close_wait is not None" for l in lits):
+            chk.ok("C13.wake", c, f"{tag} receive(): while the close() of another task is between waking the receiver and taking over (_close_wait set), receive() reports CLOSED and leaves the handshake to it")
+        elif side == "client":
+            chk.violation("C13.wake", c, K.short(c), "if self._close_wait is None: await self.close()",
+                          f"{tag} close(code=4001, message=b'bye') sets only _closing before it wakes the parked receiver; a `while True: await ws.receive()` loop calls receive() again, sees _closing and runs its own close() with the defaults: the peer gets Close(1000, '') instead of Close(4001, 'bye'), the caller's close() returns False with close_code None")
+        else:
+            chk.ok("C13.wake", c, f"{tag} receive(): close() latches _closed before it wakes the receiver, a second close() returns at once")
+    # ---- C13.wait (running close): a close() that finds the session latched waits for the handshake that is still running ------------------------------
+    g = cfg_of(close.node)
+    tests = [n for n in g.nodes if n.kind == "test" and norm.raw(n.ast) == "self._closed"]
+    early = [n for n in g.nodes if n.kind == "stmt" and isinstance(n.ast, ast.Return) and isinstance(n.ast.value, ast.Constant) and n.ast.value.value is False]
+    waits = [n for n in g.nodes if n.ast is not None and any(isinstance(a, ast.Await) for a in ast.walk(n.ast)) and n.kind == "stmt"]
+    if side == "server":
+        if not tests or not early:
+            chk.analysis_error(f"C13.wait: the `if self._closed: return False` of {cn}.close() was not found")
+        else:
+            # the only path without a wait is the one where no handshake object exists (nothing is running)
+            p = K.find_path_edges(g, tests, lambda n: n in early, lambda n: n in waits, lambda n, t, k: k != "T" and n in tests)
+            cond = [n for n in (p or []) if n.kind == "test" and n not in tests]
+            if p is None or all("is not None" in norm.raw(n.ast) or "is None" in norm.raw(n.ast) for n in cond) and cond:
+                chk.ok("C13.wait", early[0].ast, f"{tag} close() on a session another task is closing waits for that handshake to end before it returns (the handler's exit must not drop the transport under it)")
+            else:
+                chk.violation("C13.wait", early[0].ast, "if self._closed: return False", "await the running close (an Event / future set in its finally) before returning",
+                              f"{tag} ws.close() from another task (the documented on_shutdown pattern) wakes the handler's receive loop; the handler returns, finish_response() calls close() again, which returns False at once, and start() closes the transport while the first close() is still waiting for the peer's Close: it ends with 1006 although the peer answered 1000")
+    # ---- C13.heartbeat (same iteration): data read in the iteration in which the pong deadline fires counts ---------------------------------------------
+    pn = cls.methods.get("_pong_not_received")
+    verdicts = [c for c, _b in K.exprs(pn, "self._handle_ping_pong_exception($E)")] if pn is not None else []
+    for v in verdicts:
+        if any(l.text == "self._need_heartbeat_reset" and not l.pos for l in PC.units(PC.pc(K.stmt_of(v), raw=True))):
+            chk.ok("C13.heartbeat", v, f"{tag} _pong_not_received(): no verdict while a heartbeat reset is pending (the PONG was read in this loop iteration, its deferred reset has not run yet)")
+        else:
+            chk.violation("C13.heartbeat", v, K.short(v, 60), "if self._need_heartbeat_reset: return",
+                          f"{tag} _on_data_received() only marks the heartbeat for reset and defers the reset with call_soon; asyncio runs I/O callbacks before the timers due in the same iteration, so a PONG read in the iteration of the deadline is ignored: the connection is closed with 1006 `No PONG received` although the PONG is in hand")
+
+
 def hunt3(chk, repo, sp):
     """Rules written after the third defect hunt (F190, F191)."""
     from rules.C12 import _self_attrs_set
     mod, cn, side = sp["mod"], sp["cls"], sp["side"]
     cls = repo.cls(mod, cn)
-    close, recv = cls.methods["close"], cls.methods["receive"]
+    close, recv = K.with_tail_delegate(cls, "close"), cls.methods["receive"]
     tag = f"[{side}]"
     # ---- C13.wake: a receive() woken by close() leaves the handshake to close() ------------------------------------------------------------
     # close() in another task breaks the parked receive() with WS_CLOSING_MESSAGE and goes on (send CLOSE, wait for the peer's).  Where close()
